@@ -6,8 +6,8 @@
    every theorem below is re-proved against what the code says now. *)
 From Verif Require Import Common.Base.
 From Verif Require Import Generated.C15Recv Generated.C15GrpcExp Generated.C15HttpExp Generated.C15StatusUtil.
-From Verif Require Import Generated.C15Shutdown Generated.C15RecvHttpGraph Generated.C15ErrorsGraph.
-From Verif Require Import C15.Model C15.Harness C15.Proofs C15.Obligations.
+From Verif Require Import Generated.C15Shutdown Generated.C15ServerTimeouts Generated.C15RecvHttpGraph Generated.C15ErrorsGraph.
+From Verif Require Import C15.Model C15.Harness C15.Proofs C15.Obligations C15.PropCheck.
 Local Open Scope Z_scope.
 
 (* ---- clause 1: the data arrives equal to what was sent, for every signal / encoding / compression.
@@ -46,17 +46,12 @@ Proof. exact hop_empty_l. Qed.
 Theorem empty_request_hop : forall t a o, a <> AuthFail -> hop t a 0 o = mkHop false Success None.
 Proof. exact hop_empty. Qed.
 
-(* ---- clause 2: the sender sees success iff the consumer accepted.
-   Proved for every outcome except an error whose explicit gRPC status says OK (ok_coded). *)
-Theorem success_iff_accepted_partial : forall t a n o, a <> AuthFail -> (0 < n)%N -> ok_coded o = false ->
+(* ---- clause 2: the sender sees success iff the consumer accepted — for EVERY consumer outcome, errors whose
+   explicit gRPC status says OK included (full statement since /repo b16584117 repaired GetStatusFromError;
+   before: success_iff_accepted_partial / _refuted, finding C15-OKSTATUS) *)
+Theorem success_iff_accepted : forall t a n o, a <> AuthFail -> (0 < n)%N ->
   (h_verdict (hop t a n o) = Success <-> o = Accept).
 Proof. exact success_iff_accepted_l. Qed.
-
-(* The unrestricted statement is FALSE of the faithful model (finding C15-OKSTATUS): a foreign error
-   type whose GRPCStatus() has code OK reaches the consumer, is refused, and the sender sees Success. *)
-Theorem success_iff_accepted_refuted : exists t a n o,
-  a <> AuthFail /\ (0 < n)%N /\ o <> Accept /\ h_called (hop t a n o) = true /\ h_verdict (hop t a n o) = Success.
-Proof. exact success_iff_accepted_refuted_l. Qed.
 
 (* ... also when the export overlaps the receiver's Shutdown: a request that is inside the consumer when
    Shutdown starts is drained (same result as without the shutdown), a request sent after the shutdown never
@@ -79,9 +74,9 @@ Theorem after_shutdown_not_consumed_retryable : forall (lib_drains : stop_call -
   h_verdict (hop_at_lib lib_drains AfterShutdown t a n o) = Retryable.
 Proof. exact after_shutdown_l. Qed.
 
-Theorem success_iff_consumer_accepted_partial : forall lib_drains : stop_call -> bool,
+Theorem success_iff_consumer_accepted : forall lib_drains : stop_call -> bool,
   lib_drains HttpShutdown = true -> lib_drains GrpcGracefulStop = true ->
-  forall ph t a n o, a <> AuthFail -> (0 < n)%N -> ok_coded o = false ->
+  forall ph t a n o, a <> AuthFail -> (0 < n)%N ->
   (h_verdict (hop_at_lib lib_drains ph t a n o) = Success <->
    (h_called (hop_at_lib lib_drains ph t a n o) = true /\ o = Accept)).
 Proof. exact success_iff_consumer_accepted_l. Qed.
@@ -99,12 +94,46 @@ Theorem non_draining_stop_breaks_success_iff_accepted : forall (lib_drains : sto
   h_verdict (hop_at_lib lib_drains InFlightAtShutdown t a n Accept) = Retryable.
 Proof. exact cut_breaks_success_iff_accepted_l. Qed.
 
+(* ... and when the consumer is slow: confighttp.ToServer hands each configured timeout to the http.Server field of
+   the same name (dumped from the current code), so a consumer that answers within write_timeout (or with none
+   configured) is reported exactly as a fast one, whatever read_timeout is; beyond write_timeout the response
+   cannot be written any more (inherent to the configuration: accepted data is then reported as a retryable failure) *)
+Theorem to_server_copies_timeouts : forall cfg, to_server cfg = cfg.
+Proof. exact to_server_identity_l. Qed.
+
+Theorem slow_consumer_within_write_timeout : forall cfg d t a n o,
+  to_write cfg <= 0 \/ d < to_write cfg -> hop_slow cfg d t a n o = hop t a n o.
+Proof. exact slow_consumer_within_write_timeout_l. Qed.
+
+Theorem slow_consumer_beyond_write_timeout : forall cfg d t a n, t <> Grpc -> a <> AuthFail -> (0 < n)%N ->
+  0 < to_write cfg <= d ->
+  hop_slow cfg d t a n Accept = mkHop true Retryable None.
+Proof. exact slow_consumer_beyond_write_timeout_l. Qed.
+
+(* ---- the same over HISTORIES: any finite sequence of sends (any mix of transports, authenticator states, item
+   counts, consumer outcomes) through one receiver.  The sink receives exactly the sends that are authenticated and
+   have items, in order; every send gets the verdict of its own hop, so success iff ITS consumer call accepted *)
+Theorem history_sink_and_verdicts : forall h i,
+  fst (run_history h i) = delivered_indices h i /\
+  snd (run_history h i) = map (fun s => let '(t, a, n, o) := s in h_verdict (hop t a n o)) h.
+Proof. exact history_l. Qed.
+
+Theorem history_success_iff_accepted : forall h i k t a n o,
+  nth_error h k = Some (t, a, n, o) -> a <> AuthFail -> (0 < n)%N ->
+  (nth_error (snd (run_history h i)) k = Some Success <-> o = Accept).
+Proof. exact history_success_l. Qed.
+
+(* the consumer is invoked iff the request is authenticated and has items (every transport, every outcome) *)
+Theorem consumer_called_iff : forall t a n o,
+  h_called (hop t a n o) = negb (auth_fails a) && negb (n =? 0)%N.
+Proof. exact hop_called_iff. Qed.
+
 (* ---- clause 3: how a consumer error is reported: an explicit gRPC status => that status (code and
    RetryInfo); any other permanent error => Internal; any other error => Unavailable *)
-Theorem status_mapping : forall o, o <> Accept -> ok_coded o = false ->
+Theorem status_mapping : forall o, o <> Accept ->
   match from_error o with
-  | Some s => get_status_from_error o = Some s
-  | None => get_status_from_error o = Some (if is_permanent o then codes_Internal else codes_Unavailable, None)
+  | Some (c, ri) => get_status_from_error o = if c =? 0 then Some (default_status o) else Some (c, ri)
+  | None => get_status_from_error o = Some (default_status o)
   end.
 Proof. exact status_mapping_l. Qed.
 
@@ -195,7 +224,7 @@ Proof. exact plain_stays_retryable. Qed.
    gRPC; the two HTTP encodings agree; HTTP agrees with gRPC except exactly where the two
    specification tables differ (ResourceExhausted without RetryInfo: permanent over gRPC, retryable
    over HTTP 429) *)
-Theorem meaning_commutes : forall a n o, a <> AuthFail -> (0 < n)%N -> o <> Accept -> ok_coded o = false ->
+Theorem meaning_commutes : forall a n o, a <> AuthFail -> (0 < n)%N -> o <> Accept ->
   exists c ri, get_status_from_error o = Some (c, ri) /\ c <> 0 /\
     class_of (h_verdict (hop Grpc a n o)) = spec_class_grpc c ri /\
     class_of (h_verdict (hop HttpPb a n o)) = class_of (h_verdict (hop HttpJson a n o)) /\
@@ -242,23 +271,35 @@ Theorem client_errors_never_reach_consumer_grpc : forall a n o,
   fst (recv_grpc AuthFail (Some n) o) = false /\ fst (recv_grpc a None o) = false.
 Proof. exact (fun a n o => conj eq_refl eq_refl). Qed.
 
-(* ... and are answered with the protocol's client-error statuses (401 / 400 / 405 / 415 / 400 in the
-   order the server checks), without Retry-After — proved unless the request is refused before the
-   OTLP handler AND its Content-Type is not an OTLP media type *)
-Theorem client_error_status_partial : forall rq o, client_error rq = true -> answered_by_fallback rq = false ->
+(* ... and are answered with the protocol's client-error statuses (401 / 400 / 405 / 415 / 400 in the order the
+   server checks), without Retry-After, whatever the request's Content-Type (full statement since the fallback
+   error handler was repaired, /repo 158674155; before: client_error_status_partial / _refuted, finding
+   C15-CLIENTERR-500) *)
+Theorem client_error_status : forall rq o, client_error rq = true ->
   rs_status (snd (recv_http rq o)) = expected_client_status rq /\
   400 <= rs_status (snd (recv_http rq o)) <= 499 /\
   rs_retry_after (snd (recv_http rq o)) = None.
-Proof. exact client_error_status. Qed.
+Proof. exact Proofs.client_error_status. Qed.
 
-(* in that remaining region the answer is 500 (finding C15-CLIENTERR-500) *)
-Theorem client_error_status_refuted : exists rq o,
-  client_error rq = true /\ rs_status (snd (recv_http rq o)) = 500 /\ expected_client_status rq = 401.
-Proof. exact client_error_status_refuted_l. Qed.
+(* a request whose body read ends early (compressed stream without its trailer, fewer bytes than Content-Length) is
+   rejected with the client-error status and never decoded, even when the prefix that arrived would decode *)
+Theorem truncated_body_rejected : forall a p c b o,
+  fst (recv_http (mkReq a EncTruncated p c b) o) = false /\
+  rs_status (snd (recv_http (mkReq a EncTruncated p c b) o)) = expected_client_status (mkReq a EncTruncated p c b) /\
+  400 <= rs_status (snd (recv_http (mkReq a EncTruncated p c b) o)) <= 499.
+Proof. exact truncated_body_rejected_l. Qed.
 
-Theorem client_error_fallback_is_500 : forall rq o, answered_by_fallback rq = true ->
-  recv_http rq o = (false, mkResp 500 None (Some 13)).
-Proof. exact client_error_fallback_500. Qed.
+(* the classification is total and the client-error theorems are not vacuous for real traffic: what the OTLP/HTTP
+   exporter sends is never a client error, and a request that is not a client error is handled — the consumer is
+   called iff there are items, and the answer is 200 iff there were no items or the consumer accepted *)
+Theorem exporter_requests_are_well_formed : forall t a n, a <> AuthFail -> client_error (exporter_request t a n) = false.
+Proof. exact well_formed_not_client_error. Qed.
+
+Theorem well_formed_request_handled : forall rq o, client_error rq = false ->
+  exists n, r_body rq = Some n /\
+    fst (recv_http rq o) = negb (n =? 0)%N /\
+    (rs_status (snd (recv_http rq o)) = 200 <-> ((n = 0)%N \/ o = Accept)).
+Proof. exact well_formed_request_handled_l. Qed.
 
 (* gRPC: refused credentials => Unauthenticated; a malformed body => Internal, not InvalidArgument
    (finding C15-GRPC-MALFORMED-INTERNAL); both permanent for the sender *)
@@ -304,6 +345,11 @@ Proof. exact errors_model_matches_code_l. Qed.
 Theorem errors_graph_complete : (700 <=? length errors_graph = true)%nat.
 Proof. exact errors_graph_complete_l. Qed.
 
+(* ---- the decidable clause checker the driver runs over every observed case is exactly the Prop-level clause *)
+Theorem clause_checker_sound : forall c, prop_ok c = true <-> Clause c.
+Proof. exact prop_ok_sound. Qed.
+
+Print Assumptions clause_checker_sound.
 Print Assumptions recvhttp_model_matches_code.
 Print Assumptions recvhttp_graph_complete.
 Print Assumptions errors_model_matches_code.
@@ -312,14 +358,22 @@ Print Assumptions hop_delivers.
 Print Assumptions hop_sink_is_sent_payload.
 Print Assumptions empty_request_acknowledged.
 Print Assumptions empty_request_hop.
-Print Assumptions success_iff_accepted_partial.
-Print Assumptions success_iff_accepted_refuted.
+Print Assumptions success_iff_accepted.
 Print Assumptions receiver_stop_calls.
 Print Assumptions documented_library_semantics_drains.
 Print Assumptions non_draining_stop_breaks_success_iff_accepted.
 Print Assumptions shutdown_drains_inflight.
 Print Assumptions after_shutdown_not_consumed_retryable.
-Print Assumptions success_iff_consumer_accepted_partial.
+Print Assumptions success_iff_consumer_accepted.
+Print Assumptions truncated_body_rejected.
+Print Assumptions to_server_copies_timeouts.
+Print Assumptions slow_consumer_within_write_timeout.
+Print Assumptions slow_consumer_beyond_write_timeout.
+Print Assumptions history_sink_and_verdicts.
+Print Assumptions history_success_iff_accepted.
+Print Assumptions consumer_called_iff.
+Print Assumptions exporter_requests_are_well_formed.
+Print Assumptions well_formed_request_handled.
 Print Assumptions status_mapping.
 Print Assumptions status_mapping_explicit.
 Print Assumptions status_mapping_other.
@@ -344,9 +398,7 @@ Print Assumptions throttle_through_hop_http.
 Print Assumptions no_throttle_without_retry_info.
 Print Assumptions client_errors_never_reach_consumer.
 Print Assumptions client_errors_never_reach_consumer_grpc.
-Print Assumptions client_error_status_partial.
-Print Assumptions client_error_status_refuted.
-Print Assumptions client_error_fallback_is_500.
+Print Assumptions client_error_status.
 Print Assumptions client_error_status_grpc.
 Print Assumptions grpc_malformed_invalid_argument_refuted.
 Print Assumptions client_error_is_permanent_for_sender.
